@@ -667,3 +667,165 @@ def r07_4(ctx):
             else:
                 ctx.ok((short, adt), sample=dict(printer=short, view=adt, accessor_calls=len(sites), guard='new_checked Ok'))
     ctx.need(n >= 8, f"PrettyPrint impls in wire (found {n})")
+
+
+# ------------------------------------------------------------------------------------------------
+# length-prefixed (TLV) parsing over a shrinking slice
+# ------------------------------------------------------------------------------------------------
+
+def _canon(n):
+    if not isinstance(n, tuple) or not n:
+        return n
+    if n[0] in ('ref', 'deref') and len(n) == 2:
+        return _canon(n[1])
+    if n[0] == 'named':
+        return _canon(n[2])
+    if n[0] == 'phi':
+        al = tuple(sorted({_canon(a) for a in n[1] if a != ('opaque', 'partial-def')}, key=str))
+        return al[0] if len(al) == 1 else ('phi', al)
+    if n[0] == 'proj' and n[2] and n[2][0] == ('*',):
+        return _canon(('proj', n[1], n[2][1:])) if n[2][1:] else _canon(n[1])
+    return tuple(_canon(x) if isinstance(x, tuple) else x for x in n)
+
+
+def _has_opaque(n):
+    found = []
+
+    def f(x):
+        if isinstance(x, tuple) and x and x[0] == 'opaque':
+            found.append(1)
+    walk(n, f)
+    return bool(found)
+
+
+def _same_slice(a, b):
+    """canonical equality; two loop-carried phis that were cut at the origin depth limit are taken to be the same
+    slice when they share a non-opaque alternative (errs towards accepting a guard)"""
+    if a == b:
+        return True
+    if a[0] == 'phi' and b[0] == 'phi' and (_has_opaque(a) or _has_opaque(b)):
+        sa_ = {x for x in a[1] if not _has_opaque(x)}
+        sb_ = {x for x in b[1] if not _has_opaque(x)}
+        return bool(sa_ & sb_)
+    return False
+
+
+def _lin_le(a, b):
+    la, ca = lin(_canon(simplify(a)))
+    lb, cb = lin(_canon(simplify(b)))
+    return la == lb and ca <= cb
+
+
+@rule('R07.8', ['C07', 'C03', 'C19'], floor=5, clause='length-prefixed parsing: a slice is only cut at a position computed from its own content behind a comparison of that position with the slice length')
+def r07_8(ctx):
+    """T1 + linear comparison.  Sites: every `s[a..E]`, `s[E..]`, `s[..E]` in src/wire on a slice s that is not
+    the view buffer, where E is not constant and is computed from an element of s itself (the option / label
+    length byte, a compression pointer).  Obligation: a dominating edge carries `len(s) >= E'` with
+    E <= E' in linear form.  dhcpv4 option iterator, DNS label and pointer handling."""
+    F = ctx.F
+    from ..wirelib import INDEX_CALLS
+    from ..bitfield import _is_buffer
+    n = 0
+    for k, b in sorted(F.bodies.items()):
+        if not (b.file or '').startswith('src/wire/'):
+            continue
+        for bi, c, args, dest, tgt, ln in b.calls():
+            syn = c.get('fn') if isinstance(c, dict) else None
+            if syn not in INDEX_CALLS or len(args) != 2:
+                continue
+            si = len(b.blocks[bi]['s'])
+            base = F.origin.operand(b, args[0], bi, si)
+            if _is_buffer(base, None):
+                continue
+            rb = range_bounds(F, F.origin.operand(b, args[1], bi, si))
+            if rb is None:
+                continue
+            kind, s, e = rb
+            need = e if kind in ('Range', 'RangeTo') else (s if kind == 'RangeFrom' else None)
+            if need is None or const_of(need) is not None:
+                continue
+            cb = _canon(simplify(base))
+            cn = _canon(simplify(need))
+            hit = []
+
+            def w2(x):
+                if isinstance(x, tuple) and x and x[0] == 'proj' and x[2] and x[2][-1][0] == 'i':
+                    inner = _canon(('proj', x[1], x[2][:-1])) if len(x[2]) > 1 else _canon(x[1])
+                    if inner == cb or (cb[0] == 'phi' and inner in cb[1]) or _same_slice(inner, cb):
+                        hit.append(1)
+            walk(cn, w2)
+            if not hit:
+                continue
+            n += 1
+
+            def pred(f, need=need, cb=cb):
+                if f[0] != 'rel':
+                    return False
+                x, y = f[2], f[3]
+
+                def islen(m):
+                    m = _canon(simplify(m))
+                    return (m[0] == 'len' and _same_slice(m[1], cb)) or (m[0] == 'call' and m[1].endswith('::len') and _same_slice(m[2][0], cb))
+                if islen(x) and f[1] == 'Ge' and _lin_le(need, y):
+                    return True
+                if islen(x) and f[1] == 'Gt' and _lin_le(need, ('bin', 'Add', y, ('const', '1'))):
+                    return True
+                if islen(y) and f[1] == 'Le' and _lin_le(need, x):
+                    return True
+                if islen(y) and f[1] == 'Lt' and _lin_le(need, ('bin', 'Add', x, ('const', '1'))):
+                    return True
+                return False
+            bad = unguarded(F, b, [bi], pred)
+            fn = k.split('wire::', 1)[-1]
+            if bad:
+                ctx.bad(f"{fn}|self-length-slice|{kind}", f"{k}: slice cut at `{show(need)[:60]}` (a position read from the data itself) without a dominating "
+                        "comparison with the slice length: a crafted length byte / pointer indexes out of range", body=b, bb=bi, line=ln, path=bad[0][1])
+            else:
+                ctx.ok((fn, kind, ln and 0), sample=dict(fn=fn, cut=show(need)[:50], guard='len(slice) >= position'))
+    ctx.need(n >= 5, f"self-length slice cuts in wire parsers (found {n})")
+
+
+@rule('R07.9', ['C07', 'C03'], floor=1, clause='ieee802154::Frame::check_len reads the security control byte (security_header_len) only after establishing that the byte at the current offset exists (offset + 1 <= len)')
+def r07_9(ctx):
+    """The Frame view as a whole is undecided by R07.1 (value-dependent addressing layout); this is the one
+    place inside check_len where the validator itself reads at a symbolic offset."""
+    F = ctx.F
+    FRM = 'wire::ieee802154::Frame'
+    b = ctx.method(FRM, 'check_len')
+    shl = ctx.method(FRM, 'security_header_len')
+    sites = [x for x in b.calls() if b.callee_name(x[1]) == shl.key]
+    ctx.need(len(sites) == 1, "security_header_len call in ieee802154 check_len")
+    S = sites[0]
+    # the running offset at the call: operand of the addition that consumes the call's result
+    off = None
+    for bi, bl in enumerate(b.blocks):
+        if bl['cl']:
+            continue
+        for si, s in enumerate(bl['s']):
+            if s[0] == 'a' and s[2][0] == 'bin' and s[2][1] in ('AddWithOverflow', 'Add'):
+                o2 = simplify(F.origin.operand(b, s[2][3], bi, si))
+                if is_call(o2, 'security_header_len'):
+                    off = F.origin.operand(b, s[2][2], bi, si)
+    ctx.need(off is not None, "`offset += self.security_header_len()`")
+    lo, co = lin(_canon(simplify(off)))
+
+    def exists(f):
+        if f[0] != 'rel':
+            return False
+        from ..bitfield import _is_buffer
+
+        def islen(m):
+            m = _canon(simplify(m))
+            return (m[0] == 'len' and _is_buffer(m[1], None)) or (m[0] == 'call' and m[1].endswith('::len') and _is_buffer(m[2][0], None))
+        for x, y, ops in ((f[2], f[3], {'Le': 0, 'Lt': 1}), (f[3], f[2], {'Ge': 0, 'Gt': 1})):
+            if islen(y) and f[1] in ops:
+                lx, cx = lin(_canon(simplify(x)))
+                if lx == lo and cx + ops[f[1]] >= co + 1:
+                    return True
+        return False
+    bad = unguarded(F, b, [S[0]], exists)
+    if bad:
+        ctx.bad("ieee802154::check_len|security-control-byte", "check_len calls security_header_len() (which reads the security control byte at the current "
+                "offset) without first establishing offset + 1 <= len: a frame ending right after its addressing fields panics", body=b, bb=S[0], path=bad[0][1])
+    else:
+        ctx.ok(('ieee802154::check_len', 'security-control-byte'), sample=dict(guard='offset + 1 <= len before security_header_len()'))
